@@ -71,3 +71,18 @@ func (s *PersistentHybridIndex) VerifEvictAllCaches() { s.segmentManager.EvictAl
 
 // VerifTotalMemtableSize is memtableQueue.totalSize().
 func (s *PersistentHybridIndex) VerifTotalMemtableSize() int64 { return s.memtableQueue.totalSize() }
+
+// VerifLoadingSegments returns the ids of the registered segments whose mutex is
+// write-locked right now, i.e. the segments being deserialised by getIndex (TryRLock
+// fails exactly on those; nothing blocks and nothing is modified).
+func (s *PersistentHybridIndex) VerifLoadingSegments() []uint64 {
+	var out []uint64
+	for _, seg := range s.segmentManager.list() {
+		if seg.mu.TryRLock() {
+			seg.mu.RUnlock()
+		} else {
+			out = append(out, seg.id)
+		}
+	}
+	return out
+}
